@@ -128,8 +128,11 @@ func (g *gen) strLit(t *rapid.T, callArg bool) Expr {
 		}
 		lits = l
 	}
-	if rapid.IntRange(0, 4).Draw(t, "blanklit") == 0 {
+	switch rapid.IntRange(0, 5).Draw(t, "blanklit") {
+	case 0:
 		lits = blankLits // blanks inside the quotes are part of the text
+	case 1:
+		lits = nonASCIILits // multi-byte characters
 	}
 	return Expr{K: "str", V: pick(t, "strlit", lits), Q: pick(t, "quote", []string{"d", "s"})}
 }
@@ -353,7 +356,24 @@ func (g *gen) expr(t *rapid.T, env map[string]any, typ string, d int, top bool) 
 		return bin("+", sub("string"), sub("string"))
 	}
 	// bool
-	switch rapid.IntRange(0, 10).Draw(t, "boolprod") {
+	switch rapid.IntRange(0, 11).Draw(t, "boolprod") {
+	case 11:
+		if g.cat == nil {
+			// text beyond ASCII on both sides of a comparison
+			l := Expr{K: "path", V: pick(t, "napath", nonASCIIPaths)}
+			r := Expr{K: "str", V: pick(t, "nalit", nonASCIILits), Q: pick(t, "quote", []string{"d", "s"})}
+			if rapid.IntRange(0, 1).Draw(t, "hit") == 0 {
+				if v, ok := resolve(env, l.V); ok {
+					r.V = v.(string)
+				}
+			}
+			e := bin(pick(t, "beq", []string{"==", "!=", "==", "!="}), l, r)
+			if rapid.IntRange(0, 1).Draw(t, "flip") == 0 {
+				e.A[0], e.A[1] = e.A[1], e.A[0]
+			}
+			return e
+		}
+		return bin(pick(t, "lop", []string{"&&", "||"}), sub("bool"), sub("bool"))
 	case 10:
 		// a string with blanks against a literal spelled with the same or different blanks
 		if g.cat != nil {
@@ -596,6 +616,7 @@ var pipeInits = []string{
 	`errs['user[email]']`, `errs["tags[]"]`, `errs['a.b']`, `errs['two words']`, `errs["it's"]`, `errs['say "hi"']`, `errs['item[0][id]']`, `errs['sub[x]'].s`, `errs["sub[x]"]["n"]`, `errs['ok[]']`, `errs['sub[x]']`,
 	"xs[ix]", "ss[ix]", "m[kk]", "us[ix].name", "m[kb]",
 	"umax", "u63", "imax", "imin", "u32", "fbig", "negz", "sv", "rs[0]",
+	"nz", "nj", "ni", "nq", "nm", "nc", `errs['città']`, `errs["ключ"]`, `errs['東']`,
 	"post.PublishedAt", "pt.at", "ts", "post.Views", "pm.k", `pm['k']`, "ptrs[1]", "pi", "post.Slug", "post.Author", "prec",
 	"s", "h", "e", "num", "pad", "m.name", `m["name"]`, `m['name']`, "m.inner.s", "ss[0]", "st.Name", "st.In.S", "us[0].name",
 	"t", "u", "m.ok", "bs[0]", "st.Ok",
@@ -604,7 +625,7 @@ var pipeInits = []string{
 
 // quoted literal contents by class
 var (
-	litPlain = []string{"abc", "x1", "Hello", "zz9", "fb"}
+	litPlain = []string{"abc", "x1", "Hello", "zz9", "fb", "Zürich", "東京", "é😀", "İß"}
 	litVar   = []string{"a", "s", "h", "num", "t"} // also names of variables
 	litComma = []string{"a, b", "x,y", "one, two, three"}
 	litParen = []string{"(c)", "f(x)", "a) b (c"}
@@ -1179,6 +1200,12 @@ func classify(c Case) (bool, []string) {
 				}
 			case "str":
 				k = "A:strlit-" + map[string]string{"d": "double", "s": "single"}[x.Q]
+				for _, r := range x.V {
+					if r > 127 && !seen["A:strlit non-ASCII"] {
+						seen["A:strlit non-ASCII"] = true
+						cls = append(cls, "A:strlit non-ASCII")
+					}
+				}
 				if strings.ContainsAny(x.V, " \t") && !seen["A:strlit-with-blanks"] {
 					seen["A:strlit-with-blanks"] = true
 					cls = append(cls, "A:strlit-with-blanks")
@@ -1200,6 +1227,8 @@ func classify(c Case) (bool, []string) {
 					}
 				case strings.Contains(x.V, "[ix]") || strings.Contains(x.V, "[k"):
 					k = "A:path-computed-step"
+				case contains(nonASCIIPaths, x.V):
+					k = "A:path to / through non-ASCII text"
 				case strings.HasPrefix(x.V, "errs["):
 					k = "A:path-quoted-key with ] [ . blank or quote"
 				case contains(blankPaths, x.V):
